@@ -26,48 +26,4 @@ def move (now : Int) (tier : Nat) (tierDur endT : Int) : Move :=
 def tierDuration (hotD warmD : Int) (tier : Nat) : Int :=
   if tier == 1 then hotD else if tier == 2 || tier == 4 then warmD else 0
 
-theorem tier_expired_iff (now td e : Int) : shardTierExpired now td e = true ↔ td ≠ 0 ∧ e + td < now := by
-  unfold shardTierExpired
-  simp
-
-/-- **tier_move_iff**: a shard is handed to the mover exactly when its tier has a duration, the
-shard's end plus that duration has passed, and it is not cold already. -/
-theorem tier_move_iff (now : Int) (tier : Nat) (td e : Int) :
-    move now tier td e ≠ .stay ↔ td ≠ 0 ∧ e + td < now ∧ tier ≠ cold := by
-  unfold move
-  by_cases h : shardTierExpired now td e = true
-  · have := (tier_expired_iff now td e).mp h
-    by_cases hc : tier = cold
-    · simp [h, hc]
-    · by_cases hh : tier = hot <;> simp [h, hc, hh, this.1, this.2]
-  · have hn : ¬ (td ≠ 0 ∧ e + td < now) := fun hx => h ((tier_expired_iff now td e).mpr hx)
-    simp only [Bool.not_eq_true] at h
-    simp [h]
-    intro a b
-    exact absurd ⟨a, b⟩ hn
-
-/-- **unlimited_policy_may_still_move**: the deletion test and the tier test are independent — a
-shard of an unlimited policy is never reported as expired but is moved when its tier duration
-says so; and a shard whose tier has no duration never moves. -/
-theorem unlimited_policy_may_still_move (now td e : Int) (h : td ≠ 0 ∧ e + td < now) :
-    shardIsExpired now 0 e = false ∧ move now hot td e = .toWarm := by
-  constructor
-  · unfold shardIsExpired; simp
-  · unfold move
-    rw [(tier_expired_iff now td e).mpr h]
-    decide
-
-/-- **expired_implies_tier_expired**: `CheckSpecValid` keeps `HotDuration, WarmDuration ≤ Duration`
-(`checkLeqThanDuration`), so by the time a shard is deleted its tier duration (if any) has passed
-as well: deletion never overtakes a pending move. -/
-theorem expired_implies_tier_expired (now d td e : Int) (htd : td ≠ 0) (hle : td ≤ d)
-    (h : shardIsExpired now d e = true) : shardTierExpired now td e = true := by
-  have : d ≠ 0 ∧ e + d < now := by
-    unfold shardIsExpired at h
-    simpa using h
-  exact (tier_expired_iff now td e).mpr ⟨htd, by omega⟩
-
-example : move 100 1 10 50 = .toWarm ∧ move 100 2 10 50 = .toCold ∧ move 100 3 10 50 = .stay ∧
-    move 100 1 0 50 = .stay ∧ move 60 1 10 50 = .stay := by decide
-
 end OG.C14.Tier
